@@ -241,6 +241,9 @@ type commitmentsVerificationState struct {
 	previousPhaseSharesMessages      []*PeerSharesMessage
 	previousPhaseCommitmentsMessages []*MemberCommitmentsMessage
 
+	// members operating before the verification of shares and commitments
+	operatingAtStateStart []group.MemberIndex
+
 	phaseAccusationsMessages []*SecretSharesAccusationsMessage
 }
 
@@ -257,6 +260,7 @@ func (cvs *commitmentsVerificationState) Initiate(ctx context.Context) error {
 		cvs.previousPhaseSharesMessages,
 		cvs.previousPhaseCommitmentsMessages,
 	)
+	cvs.operatingAtStateStart = cvs.member.group.OperatingMemberIndexes()
 	accusationsMsg, err := cvs.member.VerifyReceivedSharesAndCommitmentsMessages(
 		cvs.previousPhaseSharesMessages,
 		cvs.previousPhaseCommitmentsMessages,
@@ -275,9 +279,10 @@ func (cvs *commitmentsVerificationState) Initiate(ctx context.Context) error {
 func (cvs *commitmentsVerificationState) Receive(msg net.Message) error {
 	switch phaseMessage := msg.Payload().(type) {
 	case *SecretSharesAccusationsMessage:
-		if cvs.member.shouldAcceptMessage(
+		if cvs.member.shouldAcceptAccusationMessage(
 			phaseMessage.SenderID(),
 			msg.SenderPublicKey(),
+			cvs.operatingAtStateStart,
 		) && cvs.member.sessionID == phaseMessage.sessionID {
 			cvs.phaseAccusationsMessages = append(
 				cvs.phaseAccusationsMessages,
@@ -455,6 +460,9 @@ type pointsValidationState struct {
 
 	previousPhaseMessages []*MemberPublicKeySharePointsMessage
 
+	// members operating before the verification of public key share points
+	operatingAtStateStart []group.MemberIndex
+
 	phaseMessages []*PointsAccusationsMessage
 }
 
@@ -468,6 +476,7 @@ func (pvs *pointsValidationState) ActiveBlocks() uint64 {
 
 func (pvs *pointsValidationState) Initiate(ctx context.Context) error {
 	pvs.member.MarkInactiveMembers(pvs.previousPhaseMessages)
+	pvs.operatingAtStateStart = pvs.member.group.OperatingMemberIndexes()
 	accusationMsg, err := pvs.member.VerifyPublicKeySharePoints(
 		pvs.previousPhaseMessages,
 	)
@@ -485,9 +494,10 @@ func (pvs *pointsValidationState) Initiate(ctx context.Context) error {
 func (pvs *pointsValidationState) Receive(msg net.Message) error {
 	switch phaseMessage := msg.Payload().(type) {
 	case *PointsAccusationsMessage:
-		if pvs.member.shouldAcceptMessage(
+		if pvs.member.shouldAcceptAccusationMessage(
 			phaseMessage.SenderID(),
 			msg.SenderPublicKey(),
+			pvs.operatingAtStateStart,
 		) && pvs.member.sessionID == phaseMessage.sessionID {
 			pvs.phaseMessages = append(pvs.phaseMessages, phaseMessage)
 		}
